@@ -190,3 +190,28 @@ TEXT["C03"] = dict(
                "so ASan sees reads past the terminator. Exploration: held on the cases generated.",
     level_note="trusts the harness's memcmp/LCP reference; the signed-char string sets are driven through the public API "
                "only (that is where the unsigned-order guarantee for char* is made)")
+ENGINES.append(dict(name="dsched", path="sched/dsched.hpp", serves_properties=["C04", "C10", "C11", "C12"],
+                    kind_free_text="controlled scheduler: shims for std::mutex/condition_variable/thread/atomic inside "
+                                   "namespace tlx (force-included, tlx sources unmodified); serial mode explores seeded "
+                                   "schedules on real OS threads with deadlock detection, jitter mode perturbs real "
+                                   "concurrency for TSan/ASan"))
+ENGINES.append(dict(name="ledger+alloc", path="lib/tracked.hpp", serves_properties=["C02", "C06", "C16", "C17"],
+                    kind_free_text="element-lifetime ledger and arena-checking allocator"))
+ENGINES.append(dict(name="offline-oracle", path="oracle/", serves_properties=["C14", "C19"],
+                    kind_free_text="python re-computation (hashlib, base64, binascii, independent SipHash) over recorded logs"))
+TEXT["C11"] = dict(
+    engine="dsched",
+    design_ref="DESIGN.md section 4, C11",
+    technique="runtime monitoring under a controlled scheduler (seeded schedules over shimmed mutex/cv/atomic, deadlock and rest-state inspection) + sequential-model replay of the recorded history, and TSan/ASan on jittered real-thread runs",
+    level_text="The unmodified Semaphore and barrier code runs on real threads whose every synchronisation operation is a "
+               "scheduling decision of a seeded strategy, so thousands of distinct interleavings of 2-5 threads are "
+               "explored per second and a state with no runnable thread is detected exactly. Semaphore histories are "
+               "linearised by the mutex acquisition in which each operation took effect and replayed on the sequential "
+               "model (exact return values, tokens never over-issued, wait only with value >= delta+slack); every rest "
+               "state is inspected for a blocked waiter whose request value() covers. Barrier generations are checked "
+               "through enter/leave/action tickets and the last arriver from the shim's operation log. The same "
+               "workloads run on real threads with injected delays under TSan and ASan. Exploration: held on the "
+               "schedules generated; sequentially consistent only.",
+    level_note="trusts the shim's fidelity to the std primitives (no spurious wake-ups, any waiter may be picked by "
+               "notify_one) and TSan for missing synchronisation; termination is only observed as 'no deadlock state and "
+               "no watchdog expiry on the schedules explored'")
